@@ -692,10 +692,12 @@ func c09runSlices(fn string, ls, rs gedcom.Nodes, snap *c09snap) *c09sliceRun {
 		return o
 	}
 	var js []int
+	taken := map[int]bool{} // the same object may occur several times in right: first free position
 	for _, cl := range o.calls {
 		for j, n := range rsBefore {
-			if n == cl.r {
+			if n == cl.r && !taken[j] {
 				js = append(js, j)
+				taken[j] = true
 				break
 			}
 		}
@@ -717,7 +719,19 @@ func c09runSlices(fn string, ls, rs gedcom.Nodes, snap *c09snap) *c09sliceRun {
 }
 
 func c09sliceCase(c *Ctx, fn string, tls0, trs0 []*TNode, label string) {
+	c09sliceCaseA(c, fn, tls0, trs0, label, nil)
+}
+
+// c09sliceCaseA: alias[i] = j (j <= i, positions in left ++ right) makes element i THE SAME NODE
+// OBJECT as element j (nil = all elements distinct objects).  For the value-based model an aliased
+// list is just a list with equal elements.
+func c09sliceCaseA(c *Ctx, fn string, tls0, trs0 []*TNode, label string, alias []int) {
 	all0 := append(append([]*TNode{}, tls0...), trs0...)
+	for i, j := range alias {
+		if i < len(all0) && j < i {
+			all0[i] = all0[j]
+		}
+	}
 	if fn == "always" && c09needsDoc(all0) {
 		// the always-merge function of the harness builds its node with gedcom.NewNode, which
 		// cannot create INDI / FAM / HUSB / WIFE / CHIL
@@ -728,6 +742,15 @@ func c09sliceCase(c *Ctx, fn string, tls0, trs0 []*TNode, label string) {
 		c.Count("unbuildable")
 		return
 	}
+	if alias != nil {
+		ns = append(gedcom.Nodes{}, ns...)
+		ts = append([]*TNode{}, ts...)
+		for i, j := range alias {
+			if i < len(ns) && j < i {
+				ns[i], ts[i] = ns[j], ts[j]
+			}
+		}
+	}
 	ls, rs := ns[:len(tls0):len(tls0)], ns[len(tls0):]
 	tls, trs := ts[:len(tls0):len(tls0)], ts[len(tls0):]
 	snap := c09snapshot(ns...)
@@ -737,6 +760,9 @@ func c09sliceCase(c *Ctx, fn string, tls0, trs0 []*TNode, label string) {
 	req := "mslice " + fn + " " + encForest(tls) + " " + encForest(trs)
 	in := map[string]string{"case": "MergeNodeSlices/" + fn + " " + label, "left": encForest(tls), "right": encForest(trs),
 		"left_gedcom": c09text(tls...), "right_gedcom": c09text(trs...)}
+	if alias != nil {
+		in["same_object"] = fmt.Sprintf("element i of left++right is the same node object as element alias[i]: %v", alias)
+	}
 	c.Eval()
 	c.Tie(req, o.obs)
 	if o.panicked != "" {
@@ -786,26 +812,26 @@ func c09sliceCase(c *Ctx, fn string, tls0, trs0 []*TNode, label string) {
 	// guarantees 4, 5: every merge pairs a not-yet-merged left node with a right node; each right
 	// node is used at most once
 	mergedOut := map[gedcom.Node]bool{}
-	usedR := map[gedcom.Node]bool{}
-	isRight := map[gedcom.Node]bool{}
+	usedR := map[gedcom.Node]int{}
+	isRight := map[gedcom.Node]int{} // how often the object occurs in the right slice
 	for _, n := range rsBefore {
-		isRight[n] = true
+		isRight[n]++
 	}
 	for _, cl := range calls {
 		if mergedOut[cl.l] {
 			c.Oracle("", "a node that was already the result of a merge was merged again", in, cl.l.GEDCOMString(0), "merged at most once")
 		}
-		if usedR[cl.r] {
-			c.Oracle("", "a right node was merged twice", in, cl.r.GEDCOMString(0), "merged at most once")
+		if usedR[cl.r] >= isRight[cl.r] && isRight[cl.r] > 0 {
+			c.Oracle("", "a right node was merged more often than it occurs in the right slice", in, cl.r.GEDCOMString(0), "merged at most once")
 		}
-		if !isRight[cl.r] {
+		if isRight[cl.r] == 0 {
 			c.Oracle("", "the merge function was given a right argument that is not an element of the right slice", in, cl.r.GEDCOMString(0), "left x right only")
 		}
 		if _, isInput := snap.index[cl.l]; isInput {
 			c.Oracle("", "the merge function was given an input object as its left argument", in, cl.l.GEDCOMString(0), "a copy of a left node")
 		}
 		mergedOut[cl.m] = true
-		usedR[cl.r] = true
+		usedR[cl.r]++
 	}
 	if len(res) != len(tls)+len(trs)-len(calls) {
 		c.Oracle("", "result length is not |l| + |r| - merges", in, fmt.Sprintf("%d merges=%d", len(res), len(calls)), fmt.Sprint(len(tls)+len(trs)-len(calls)))
@@ -1073,6 +1099,8 @@ func init() {
 				c09sliceCase(c, "never", a, b, "lists")
 			}
 		}
+		// lists in which the same node object occurs several times
+		c09aliased(c, tame, wild)
 		c.Notes = append(c.Notes,
 			"INDI / FAM / HUSB / WIFE / CHIL nodes are decoded from GEDCOM text (they cannot be built with gedcom.NewNode); with them the always-merge function is replaced by the equality merge function",
 			"the destination document is observed before/after: every record the call appends (empty FAM records from document.AddFamily inside Filter) is part of the observation",
